@@ -156,5 +156,5 @@ DeliveredImmutable == \A j \in DOMAIN held : held[j].cur = held[j].orig
 StreamInSync ==
   layer = "gob" =>
     /\ encKnown \subseteq decKnown \cup pend \cup UNION { q[i].descs : i \in DOMAIN q }
-    /\ \A i \in DOMAIN q : q[i].m.typ \in decKnown \cup UNION { q[j].descs : j \in 1..i }
+    /\ \A i \in DOMAIN q : ~q[i].bad => q[i].m.typ \in decKnown \cup UNION { q[j].descs : j \in 1..i }
 =============================================================================
